@@ -69,6 +69,10 @@ class Frame:
         self.path_base = 0
 
 
+import os as _os
+_CHAOS = set(filter(None, _os.environ.get("PST_CHAOS", "").split(",")))
+
+
 def _iter_rest(itv):
     src, k = itv.attrs["src"], itv.attrs["pos"]
     itv.attrs["pos"] = None  # exhausted by this loop
@@ -2392,6 +2396,12 @@ class Interp:
                     while len(pos) < len(sig) and sig[len(pos)] in kwargs:
                         pos.append(kwargs.pop(sig[len(pos)]))
                 self.event("ext-call", n, target=fv.target, pos=pos, kwargs=kwargs)
+                if _CHAOS and fv.target in _CHAOS:
+                    # self-test of the rules (tools/chaos.sh): this primitive pretends not to be modelled — every verdict that
+                    # rests on a run through it must turn into 'unmodelled', never stay 'discharged'
+                    import sys as _sys
+                    print("CHAOS-HIT", fv.target, self.frames[-1].fi.qualname if self.frames else "", file=_sys.stderr)
+                    return self.unknown("chaos:" + fv.target, n, tuple(generic_elem(x) for x in pos))
                 if h is None:
                     return self.unknown("prim:" + fv.target, n, tuple(generic_elem(x) for x in pos))
                 try:
